@@ -483,6 +483,30 @@ def mech_range_index(site):
     if idx.get("k") not in ("copy", "move") or idx.get("ty") != "usize":
         return None
     os_ = F.origins(fn, idx, depth=10, through_calls=False)
+    if getattr(fn, "kind", None) == "Closure" and os_ and all(o.kind == "arg" and o.arg == 2 and not [e for e in (o.place or {}).get("p", []) if isinstance(e, dict)]
+                                                            for o in os_):
+        # `(0..v.len()).map(|i| .. v[i] ..)`: the closure's item is the range's item; the range is built where the closure is used
+        P = fn.prog
+        par = P.fns.get(fn.parent_key)
+        if par is not None:
+            for c0 in par.calls:
+                if not re.search(r"Iterator::(map|for_each)$", short(c0.name)) or not c0.args or \
+                        not any(fn.key == x or fn.key.endswith(x) or x == fn.raw.get("key") for x in (c0.func.get("closure_args") or [])):
+                    continue
+                for o in F.origins(par, c0.args[0], depth=10):
+                    if o.kind != "aggr" or o.place is None:
+                        continue
+                    for _, st in F._assign_defs(par).get(o.place["l"], []):
+                        rv = st["rv"]
+                        if rv["k"] == "aggr" and (rv.get("adt") or "").endswith("ops::range::Range") and len(rv["ops"]) == 2 and \
+                                rv["ops"][0].get("k") == "const" and rv["ops"][0].get("int") == 0 and rv["ops"][1].get("k") in ("copy", "move"):
+                            his = F.origins(par, rv["ops"][1], depth=8, through_calls=False)
+                            lens = [o2.call for o2 in his if o2.kind == "call"]
+                            if len(lens) == 1 and short(lens[0].name) == "alloc::vec::Vec::len" and not any(o2.kind in ("binop", "const", "arg") for o2 in his) and \
+                                    F.source_fields(par, lens[0].args[0], depth=8)[-1:] == F.source_fields(fn, site.call.args[0], depth=8)[-1:] != [] and \
+                                    (lens[0].func.get("res_targs") or lens[0].targs or [None])[0] == (site.call.func.get("res_targs") or site.call.targs or [""])[0]:
+                                return "index produced by `0..v.len()` (built where the closure is mapped) over the same field (in bounds by construction)"
+        return None
     nxt = [o.call for o in os_ if o.kind == "call" and re.search(r"Iterator for core::ops::range::Range<A>>::next$", short(o.call.name))]
     if len(nxt) != 1 or any(o.kind in ("binop", "unop", "const", "cast", "arg") for o in os_) or \
             any(o.kind == "call" and o.call is not nxt[0] for o in os_):
